@@ -35,16 +35,17 @@ func (s *SqliteKV) ListKeys(ctx context.Context, prefix []byte) ([]*protocol.Key
 
 	for rows.Next() {
 		var (
-			key   []byte
-			flags uint8
+			key       []byte
+			flags     uint8
+			simpleLen int64
 		)
-		if err := rows.Scan(&key, &flags); err != nil {
+		if err := rows.Scan(&key, &flags, &simpleLen); err != nil {
 			return nil, err
 		}
 		if !bytes.HasPrefix(key, prefix) {
 			continue
 		}
-		if flags&SimpleFlag != 0 {
+		if flags&SimpleFlag != 0 && simpleLen > 0 {
 			keys = append(keys, &protocol.KeyComposite{
 				Type: protocol.KeyComposite_SIMPLE,
 				Key:  key,
